@@ -10,11 +10,12 @@ import traceback
 ID = "C14"
 LEVEL = "exploration"
 RULE = (
-    "G-reads: 1..60 reads as FASTQ / FASTQ.gz / unaligned BAM (duplicate read names adjacent or apart, FASTQ comments, BAM "
+    "G-reads: 1..60 reads as FASTQ / FASTQ.gz / unaligned BAM (duplicate read names adjacent or apart, names with mate suffixes /1 /2 and other counters next to their "
+    "bare form, input files named .fastq/.fq/.fastq.gz/.fq.gz, FASTQ comments, BAM "
     "records without sequence, tags), haplotype lists with 2 or 4 columns, with/without header, plain or gz, 'none' entries, "
-    "names absent from the reads, reads absent from the list, ploidy 2 (--output-h1/-h2, either may be omitted) or 2-4 (-o x n), "
+    "names absent from the reads, reads absent from the list, ploidy 2 (--output-h1/-h2, either or both may be omitted: the untagged output alone is a legal request) or 2-4 (-o x n), "
     "every combination of --output-untagged, --add-untagged, --discard-unknown-reads, --only-largest-block (unique largest block "
-    "per chromosome), --read-lengths-histogram; run through whatshap.cli.split.run_split. Monitor O-split: replay of the input in "
+    "per chromosome), --read-lengths-histogram; run through whatshap.cli.split.run_split, a quarter of the runs through the command line (parser, validate, main). Monitor O-split: replay of the input in "
     "order through a name->haplotype dict built by an own list parser gives the expected record sequence of every output file; "
     "outputs compared record by record (FASTQ 4-tuples, BAM to_string); partition check when all outputs are requested; histogram "
     "identity (column sums vs records written). Non-trivial: >=2 haplotypes receive reads and there is >=1 untagged or unlisted "
@@ -39,8 +40,12 @@ def gen_case(rng):
     dupmode = rng.choice(["none", "none", "adjacent", "apart"])
     base = 0
     while len(names) < n:
-        nm = "read%d/%s" % (base, rng.choice("ab")) if rng.random() < 0.1 else "read%d" % base
+        # read-name shapes of real FASTQ files: mate suffixes (/1, /2), dotted / underscored / colon-separated counters; now
+        # and then the suffixed and the bare form of one name are both present (they are different reads)
+        nm = "read%d%s" % (base, rng.choice(["/1", "/2", "/1", "/2", "/a", ".1", "_2", ":1:N:0", "-R1"])) if rng.random() < 0.2 else "read%d" % base
         names.append(nm)
+        if nm != "read%d" % base and rng.random() < 0.4 and len(names) < n:
+            names.append(rng.choice(["read%d" % base, "read%d/%s" % (base, "2" if nm.endswith("/1") else "1")]))
         if dupmode == "adjacent" and rng.random() < 0.5 and len(names) < n:
             names.append(nm)
         base += 1
@@ -104,6 +109,8 @@ def gen_case(rng):
     outs = [True] * ploidy
     if style == "h1h2" and rng.random() < 0.3:
         outs[rng.randrange(2)] = False
+        if rng.random() < 0.3:
+            outs = [False, False]  # only the untagged output is requested
     opts = {
         "style": style,
         "outs": outs,
@@ -115,6 +122,9 @@ def gen_case(rng):
         "list_header": rng.random() < 0.5,
         "list_gz": rng.random() < 0.2,
         "ncols": ncols,
+        # file-name shapes of FASTQ inputs (the format is detected from the name) and runs through the command line
+        "short_ext": rng.random() < 0.3,
+        "via_cli": rng.random() < 0.25,
     }
     return {"fmt": fmt, "ploidy": ploidy, "reads": reads, "entries": entries, "opts": opts}
 
@@ -123,7 +133,7 @@ def _write_inputs(case, tmp):
     import pysam
 
     fmt = case["fmt"]
-    rp = os.path.join(tmp, "reads." + fmt)
+    rp = os.path.join(tmp, "reads." + (fmt.replace("fastq", "fq") if case["opts"].get("short_ext") else fmt))
     if fmt.startswith("fastq"):
         txt = "".join(
             "@%s%s\n%s\n+\n%s\n" % (r["name"], (" " + r["comment"]) if r["comment"] else "", r["seq"], r["qual"]) for r in case["reads"]
@@ -251,19 +261,39 @@ def check_case(case, tmp, counters):
     if o["style"] == "h1h2":
         kw["output_h1"] = paths[1] if o["outs"][0] else None
         kw["output_h2"] = paths[2] if o["outs"][1] else None
-        if not (kw["output_h1"] or kw["output_h2"]):
-            kw["output_h1"] = paths[1]
-            o["outs"][0] = True
+        if not (kw["output_h1"] or kw["output_h2"] or kw["output_untagged"]):
+            # something has to be requested; the untagged output alone is a legal request
+            kw["output_untagged"] = paths[0]
+            o["untagged"] = True
     else:
         kw["outputs"] = paths[1:]
     files, hist, requested = o_split(case)
     if o["discard_unknown"] and not case["entries"]:
         return None, []  # documented assertion: nothing known
-    try:
-        run_split(**kw)
-    except Exception:
-        tb = traceback.format_exc()
-        return False, [{"mech": "crash:" + tb.strip().splitlines()[-1].split(":")[0], "msg": "run_split raised: " + tb[-1200:]}]
+    if o.get("via_cli"):
+        from wv import pipeline
+
+        argv = ["split"]
+        for key, opt in (("output_h1", "--output-h1"), ("output_h2", "--output-h2"), ("output_untagged", "--output-untagged"),
+                         ("read_lengths_histogram", "--read-lengths-histogram")):
+            if kw.get(key):
+                argv += [opt, kw[key]]
+        for x in kw.get("outputs") or []:
+            argv += ["-o", x]
+        for key, opt in (("add_untagged", "--add-untagged"), ("only_largest_block", "--only-largest-block"), ("discard_unknown_reads", "--discard-unknown-reads")):
+            if kw.get(key):
+                argv.append(opt)
+        argv += [rp, lp]
+        counters["cli_runs"] = counters.get("cli_runs", 0) + 1
+        st, msg = pipeline.cli_main(argv)
+        if st != "ok":
+            return False, [{"mech": "crash:cli-" + ("refused" if st == "cle" else msg.strip().splitlines()[-1].split(":")[0]), "msg": "whatshap split via the command line: " + msg[-1200:]}]
+    else:
+        try:
+            run_split(**kw)
+        except Exception:
+            tb = traceback.format_exc()
+            return False, [{"mech": "crash:" + tb.strip().splitlines()[-1].split(":")[0], "msg": "run_split raised: " + tb[-1200:]}]
     counters["runs_ok"] = counters.get("runs_ok", 0) + 1
     viol = []
     if ext == "bam":
